@@ -100,6 +100,12 @@ func (fm *Frame) InputFile() *os.File {
 // ValueOutput returns a handle for writing value outputs.
 func (fm *Frame) ValueOutput() ValueOutput {
 	p := fm.ports[1]
+	if p.Chan == ClosedChan {
+		// An input-only port (like the default stdin, or the result of a <
+		// redirection) was duplicated onto port 1. Sending on its closed
+		// channel would panic; report an error instead.
+		return valueOutput{nil, closedSendStop, &ErrPortDoesNotSupportValueOutput}
+	}
 	return valueOutput{p.Chan, p.sendStop, p.sendError}
 }
 
